@@ -56,7 +56,7 @@ theorem addIds_spec (c g : Nat) : ∀ (k lo : Nat) (l : List Node), (keys l).Nod
     | inr h => exact h
 
 /-- what the holder of the lock knows about the shared state, by monitor state -/
-def QInv (q : DQ) (reg : Nat) (sh : Shared) : Prop :=
+def QInv (q : DQ) (reg tmp : Nat) (sh : Shared) : Prop :=
   match q with
   | .out => True
   | .idle => IdsOk sh
@@ -65,29 +65,38 @@ def QInv (q : DQ) (reg : Nat) (sh : Shared) : Prop :=
   | .rdA c k => Bnd sh c (reg + k) ∧ reg = sh.ctr c
   | .clr c => Bnd sh c 0
   | .fil c n => Bnd sh c n
+  | .rdl c => IdsOk sh ∧ reg = sh.ctr c ∧ tmp = sh.ctr c
+  | .rdAl c k => Bnd sh c (reg + k) ∧ reg = sh.ctr c ∧ tmp = sh.ctr c
+  | .rdBp c k i => Bnd sh c (reg + i) ∧ reg + k ≤ sh.ctr c ∧ i ≤ k
   | .bad => False
 
-theorem QInv.nodup {q : DQ} {reg : Nat} {sh : Shared} (h : QInv q reg sh) (hq : q ≠ .out) : (keys sh.nodes).Nodup := by
+theorem QInv.nodup {q : DQ} {reg tmp : Nat} {sh : Shared} (h : QInv q reg tmp sh) (hq : q ≠ .out) : (keys sh.nodes).Nodup := by
   cases q <;> simp only [QInv] at h
-  · exact absurd rfl hq
-  · exact h.1
-  · exact h.1.1
-  · exact h.1.nodup
-  · exact h.1.nodup
-  · exact h.nodup
-  · exact h.nodup
+  case out => exact absurd rfl hq
+  case idle => exact h.1
+  case rd => exact h.1.1
+  case rdB => exact h.1.nodup
+  case rdA => exact h.1.nodup
+  case clr => exact h.nodup
+  case fil => exact h.nodup
+  case rdl => exact h.1.1
+  case rdAl => exact h.1.nodup
+  case rdBp => exact h.1.nodup
 
 /-- releasing is only accepted in states where the sequential invariant holds again -/
-theorem QInv.release {q : DQ} {reg : Nat} {sh : Shared} (h : QInv q reg sh) (hq : q ≠ .out)
+theorem QInv.release {q : DQ} {reg tmp : Nat} {sh : Shared} (h : QInv q reg tmp sh) (hq : q ≠ .out)
     (hr : discStep q .rel ≠ .bad) : discStep q .rel = .out ∧ IdsOk sh := by
   cases q <;> simp only [QInv, discStep] at h hr ⊢
-  · exact absurd rfl hq
-  · exact ⟨trivial, h⟩
-  · exact ⟨trivial, h.1⟩
-  · exact ⟨trivial, h.1.idsOk (by omega)⟩
-  · exact absurd rfl hr
-  · exact ⟨trivial, h.idsOk (by omega)⟩
-  · exact absurd rfl hr
+  case out => exact absurd rfl hq
+  case idle => exact ⟨trivial, h⟩
+  case rd => exact ⟨trivial, h.1⟩
+  case rdB => exact ⟨trivial, h.1.idsOk (by omega)⟩
+  case rdA => exact absurd rfl hr
+  case clr => exact ⟨trivial, h.idsOk (by omega)⟩
+  case fil => exact absurd rfl hr
+  case rdl => exact absurd rfl hr
+  case rdAl => exact absurd rfl hr
+  case rdBp => exact ⟨trivial, h.1.idsOk (by omega)⟩
 
 theorem bnd_filter {sh : Shared} {c b : Nat} (p : Node → Bool) (h : Bnd sh c b) :
     Bnd { sh with nodes := sh.nodes.filter p } c b :=
@@ -101,10 +110,15 @@ theorem bnd_add {sh : Shared} {c b : Nat} (g lo k : Nat) (h : Bnd sh c b) (hlo :
   obtain ⟨a, b', d⟩ := addIds_spec c g k lo sh.nodes h.nodup (fun n hn hc => by have := h.own n hn hc; omega)
   exact ⟨a, b', fun n hn hc => h.oth n (d n hn hc) hc⟩
 
-theorem QInv.step {q : DQ} {reg : Nat} {sh : Shared} {m : Micro} (h : QInv q reg sh) (hq : q ≠ .out)
+theorem effectT_old {m : Micro} (h1 : ∀ c, m ≠ .ld c) (h2 : ∀ c k, m ≠ .st c k) (reg tmp : Nat) (sh : Shared) :
+    effectT m reg tmp sh = ((effect m reg sh).1, (effect m reg sh).2, tmp) := by
+  cases m <;> first | rfl | (exact absurd rfl (h1 _)) | (exact absurd rfl (h2 _ _))
+
+theorem QInv.step {q : DQ} {reg tmp : Nat} {sh : Shared} {m : Micro} (h : QInv q reg tmp sh) (hq : q ≠ .out)
     (hm1 : m ≠ .acq) (hm2 : m ≠ .rel) (hb : discStep q m ≠ .bad) :
-    QInv (discStep q m) (effect m reg sh).2 (effect m reg sh).1 ∧ discStep q m ≠ .out := by
-  cases q <;> cases m <;> simp only [discStep, ne_eq, not_true_eq_false, reduceCtorEq, not_false_eq_true] at hb hq hm1 hm2 ⊢
+    QInv (discStep q m) (effectT m reg tmp sh).2.1 (effectT m reg tmp sh).2.2 (effectT m reg tmp sh).1 ∧ discStep q m ≠ .out := by
+  cases q <;> cases m <;>
+    simp only [discStep, ne_eq, not_true_eq_false, reduceCtorEq, not_false_eq_true, effectT, effect] at hb hq hm1 hm2 ⊢
   all_goals first
     | (exact ⟨h, trivial⟩)
     | skip
@@ -115,13 +129,17 @@ theorem QInv.step {q : DQ} {reg : Nat} {sh : Shared} {m : Micro} (h : QInv q reg
     refine ⟨⟨keys_filter_nodup _ h.1, fun n hn hc => ?_, fun n hn _ => h.2 n (List.mem_filter.mp hn).1⟩, trivial⟩
     have := (List.mem_filter.mp hn).2
     simp [hc] at this
+  case idle.rmOne g =>
+    refine ⟨⟨?_, fun n hn => h.2 n (List.mem_of_mem_eraseP hn)⟩, trivial⟩
+    unfold keys at *
+    exact List.Nodup.sublist (List.Sublist.map _ List.eraseP_sublist) h.1
   case rd.read c c' =>
     split at hb
     · rename_i e; subst e; simp only [if_true]; exact ⟨⟨h.1, rfl⟩, by simp⟩
     · exact absurd rfl hb
   case rd.bump c c' k =>
     split at hb
-    · rename_i e; subst e; simp only [if_true, effect, QInv]
+    · rename_i e; subst e; simp only [if_true, QInv]
       obtain ⟨h1, h2⟩ := h
       refine ⟨⟨⟨h1.1, fun n hn hc => ?_, fun n hn hc => ?_⟩, ?_⟩, by simp⟩
       · have := h1.2 n hn; rw [hc] at this; omega
@@ -130,7 +148,7 @@ theorem QInv.step {q : DQ} {reg : Nat} {sh : Shared} {m : Micro} (h : QInv q reg
     · exact absurd rfl hb
   case rd.bumpReg c c' k =>
     split at hb
-    · rename_i e; subst e; simp only [if_true, effect, QInv]
+    · rename_i e; subst e; simp only [if_true, QInv]
       obtain ⟨h1, h2⟩ := h
       refine ⟨⟨⟨h1.1, fun n hn hc => ?_, fun n hn hc => ?_⟩, ?_⟩, by simp⟩
       · have := h1.2 n hn; rw [hc] at this; omega
@@ -139,19 +157,58 @@ theorem QInv.step {q : DQ} {reg : Nat} {sh : Shared} {m : Micro} (h : QInv q reg
     · exact absurd rfl hb
   case rd.add c c' g k =>
     split at hb
-    · rename_i e; subst e; simp only [if_true, effect, QInv]
+    · rename_i e; subst e; simp only [if_true, QInv]
       obtain ⟨h1, h2⟩ := h
       exact ⟨⟨bnd_add g reg k (h1.bnd c') (by omega), h2⟩, by simp⟩
     · exact absurd rfl hb
+  case rd.ld c c' =>
+    split at hb
+    · rename_i e; subst e; simp only [if_true, QInv]; exact ⟨⟨h.1, h.2, trivial⟩, by simp⟩
+    · exact absurd rfl hb
+  case rd.ins c c' g off =>
+    split at hb
+    · rename_i e; obtain ⟨e1, e2⟩ := e; subst e1; subst e2; simp only [and_self, if_true, QInv]
+      obtain ⟨h1, h2⟩ := h
+      exact ⟨⟨bnd_add g (reg + 0) 1 (h1.bnd c') (by omega), h2⟩, by simp⟩
+    · exact absurd rfl hb
+  case rdl.st c c' k =>
+    split at hb
+    · rename_i e; subst e; simp only [if_true, QInv]
+      obtain ⟨h1, h2, h3⟩ := h
+      refine ⟨⟨⟨h1.1, fun n hn hc => ?_, fun n hn hc => ?_⟩, ?_⟩, by simp⟩
+      · have := h1.2 n hn; rw [hc] at this; omega
+      · have := h1.2 n hn; simpa [upd, hc] using this
+      · simp [upd]; omega
+    · exact absurd rfl hb
   case rdB.add c k c' g k' =>
     split at hb
-    · rename_i e; obtain ⟨e1, e2⟩ := e; subst e1; subst e2; simp only [and_self, if_true, effect, QInv]
+    · rename_i e; obtain ⟨e1, e2⟩ := e; subst e1; subst e2; simp only [and_self, if_true, QInv]
       obtain ⟨h1, h2⟩ := h
       exact ⟨(bnd_add g reg k' h1 (Nat.le_refl _)).idsOk h2, by simp⟩
     · exact absurd rfl hb
+  case rdB.ins c k c' g off =>
+    split at hb
+    · rename_i e; obtain ⟨e1, e2, e3⟩ := e; subst e1; subst e2
+      obtain ⟨h1, h2⟩ := h
+      have hb' := bnd_add g (reg + 0) 1 h1 (by omega)
+      simp only [true_and, e3, if_true]
+      split
+      · rename_i ek; subst ek; simp only [QInv]; exact ⟨hb'.idsOk (by omega), by simp⟩
+      · simp only [QInv]; exact ⟨⟨by simpa using hb', h2, by omega⟩, by simp⟩
+    · exact absurd rfl hb
+  case rdBp.ins c k i c' g off =>
+    split at hb
+    · rename_i e; obtain ⟨e1, e2, e3⟩ := e; subst e1; subst e2
+      obtain ⟨h1, h2, h3⟩ := h
+      have hb' := bnd_add g (reg + off) 1 h1 (Nat.le_refl _)
+      simp only [true_and, e3, if_true]
+      split
+      · rename_i ek; simp only [QInv]; exact ⟨hb'.idsOk (by show reg + off + 1 ≤ sh.ctr c'; omega), by simp⟩
+      · simp only [QInv]; exact ⟨⟨by simpa [Nat.add_assoc] using hb', h2, by omega⟩, by simp⟩
+    · exact absurd rfl hb
   case rdA.bump c k c' k' =>
     split at hb
-    · rename_i e; obtain ⟨e1, e2⟩ := e; subst e1; subst e2; simp only [and_self, if_true, effect, QInv]
+    · rename_i e; obtain ⟨e1, e2⟩ := e; subst e1; subst e2; simp only [and_self, if_true, QInv]
       obtain ⟨h1, h2⟩ := h
       refine ⟨⟨h1.nodup, fun n hn => ?_⟩, by simp⟩
       by_cases hc : n.space = c'
@@ -160,8 +217,27 @@ theorem QInv.step {q : DQ} {reg : Nat} {sh : Shared} {m : Micro} (h : QInv q reg
     · exact absurd rfl hb
   case rdA.bumpReg c k c' k' =>
     split at hb
-    · rename_i e; obtain ⟨e1, e2⟩ := e; subst e1; subst e2; simp only [and_self, if_true, effect, QInv]
+    · rename_i e; obtain ⟨e1, e2⟩ := e; subst e1; subst e2; simp only [and_self, if_true, QInv]
       obtain ⟨h1, h2⟩ := h
+      refine ⟨⟨h1.nodup, fun n hn => ?_⟩, by simp⟩
+      by_cases hc : n.space = c'
+      · have := h1.own n hn hc; simp [upd, hc]; omega
+      · have := h1.oth n hn hc; simpa [upd, hc] using this
+    · exact absurd rfl hb
+  case rdA.ld c k c' =>
+    split at hb
+    · rename_i e; subst e; simp only [if_true, QInv]; exact ⟨⟨h.1, h.2, trivial⟩, by simp⟩
+    · exact absurd rfl hb
+  case rdA.ins c j c' g off =>
+    split at hb
+    · rename_i e; obtain ⟨e1, e2⟩ := e; subst e1; subst e2; simp only [and_self, if_true, QInv]
+      obtain ⟨h1, h2⟩ := h
+      exact ⟨⟨by simpa [Nat.add_assoc] using bnd_add g (reg + off) 1 h1 (Nat.le_refl _), h2⟩, by simp⟩
+    · exact absurd rfl hb
+  case rdAl.st c k c' k' =>
+    split at hb
+    · rename_i e; obtain ⟨e1, e2⟩ := e; subst e1; subst e2; simp only [and_self, if_true, QInv]
+      obtain ⟨h1, h2, h3⟩ := h
       refine ⟨⟨h1.nodup, fun n hn => ?_⟩, by simp⟩
       by_cases hc : n.space = c'
       · have := h1.own n hn hc; simp [upd, hc]; omega
@@ -169,24 +245,30 @@ theorem QInv.step {q : DQ} {reg : Nat} {sh : Shared} {m : Micro} (h : QInv q reg
     · exact absurd rfl hb
   case clr.delSpace c c' =>
     split at hb
-    · rename_i e; subst e; simp only [if_true, effect, QInv]; exact ⟨bnd_filter _ h, by simp⟩
+    · rename_i e; subst e; simp only [if_true, QInv]; exact ⟨bnd_filter _ h, by simp⟩
     · exact absurd rfl hb
   case clr.addFrom c c' g lo k =>
     split at hb
-    · rename_i e; subst e; simp only [if_true, effect, QInv]; exact ⟨bnd_add g lo k h (Nat.zero_le _), by simp⟩
+    · rename_i e; subst e; simp only [if_true, QInv]; exact ⟨bnd_add g lo k h (Nat.zero_le _), by simp⟩
     · exact absurd rfl hb
   case clr.setCtr c c' v =>
     split at hb
-    · rename_i e; subst e; simp only [if_true, effect, QInv]
+    · rename_i e; subst e; simp only [if_true, QInv]
       simp only [QInv] at h
       refine ⟨⟨h.nodup, fun n hn => ?_⟩, by simp⟩
       by_cases hc : n.space = c'
       · have := h.own n hn hc; omega
       · have := h.oth n hn hc; simpa [upd, hc] using this
     · exact absurd rfl hb
+  case fil.addFrom c n c' g lo k =>
+    split at hb
+    · rename_i e; obtain ⟨e1, e2⟩ := e; subst e1; simp only [true_and, e2, if_true, QInv]
+      simp only [QInv] at h
+      exact ⟨bnd_add g lo k h e2, by simp⟩
+    · exact absurd rfl hb
   case fil.setCtr c n c' v =>
     split at hb
-    · rename_i e; obtain ⟨e1, e2⟩ := e; subst e1; subst e2; simp only [and_self, if_true, effect, QInv]
+    · rename_i e; obtain ⟨e1, e2⟩ := e; subst e1; subst e2; simp only [and_self, if_true, QInv]
       simp only [QInv] at h
       refine ⟨⟨h.nodup, fun n hn => ?_⟩, by simp⟩
       by_cases hc : n.space = c'
@@ -203,9 +285,13 @@ theorem acc_ne_bad {q : DQ} {p : List Micro} (h : runQ discStep q p = .out) : q 
   intro e; subst e; rw [runQ_bad] at h; cases h
 
 theorem out_step {m : Micro} (h : discStep .out m ≠ .bad) :
-    (m = .acq ∧ discStep .out m = .idle) ∨ (m ≠ .acq ∧ m ≠ .rel ∧ discStep .out m = .out ∧ ∀ r sh, effect m r sh = (sh, r)) := by
-  cases m <;> simp [discStep, effect] at h ⊢
+    (m = .acq ∧ discStep .out m = .idle) ∨
+    (m ≠ .acq ∧ m ≠ .rel ∧ m ≠ .reinit ∧ discStep .out m = .out ∧ ∀ r t sh, effectT m r t sh = (sh, r, t)) := by
+  cases m <;> simp [discStep, effectT, effect] at h ⊢
   case ctor w => subst h; simp
+
+theorem reinit_bad (q : DQ) : discStep q .reinit = .bad := by
+  cases q <;> simp [discStep]
 
 theorem in_acq {q : DQ} (hq : q ≠ .out) : discStep q .acq = .bad := by
   cases q <;> simp [discStep] at hq ⊢
@@ -215,7 +301,7 @@ structure Inv (qs : Nat → DQ) (s : Sys) : Prop where
   acc : ∀ t, runQ discStep (qs t) (s.thr t).prog = .out
   holder : ∀ t, qs t ≠ .out ↔ s.lock = some t
   free : s.lock = none → IdsOk s.sh
-  held : ∀ t, s.lock = some t → QInv (qs t) (s.thr t).reg s.sh
+  held : ∀ t, s.lock = some t → QInv (qs t) (s.thr t).reg (s.thr t).tmp s.sh
   noErr : s.relErr = false
 
 theorem Inv.step {qs : Nat → DQ} {s s' : Sys} {t : Nat} (h : Inv qs s) (hs : step t s = some s') :
@@ -232,7 +318,7 @@ theorem Inv.step {qs : Nat → DQ} {s s' : Sys} {t : Nat} (h : Inv qs s) (hs : s
     · -- thread t is outside the lock
       rw [hqt] at hnb hacc
       have hlk : s.lock ≠ some t := fun e => (h.holder t).mpr e hqt
-      rcases out_step hnb with ⟨hm, hd⟩ | ⟨hm1, hm2, hd, heff⟩
+      rcases out_step hnb with ⟨hm, hd⟩ | ⟨hm1, hm2, hm3, hd, heff⟩
       · subst hm
         simp only [if_true] at hs
         split at hs
@@ -257,7 +343,7 @@ theorem Inv.step {qs : Nat → DQ} {s s' : Sys} {t : Nat} (h : Inv qs s) (hs : s
             simp [hqt, hd, QInv]; exact h.free hl
           · exact h.noErr
         · cases hs
-      · simp only [hm1, hm2, if_false] at hs
+      · simp only [hm1, hm2, hm3, if_false] at hs
         cases hs
         rw [heff]
         constructor
@@ -281,6 +367,7 @@ theorem Inv.step {qs : Nat → DQ} {s s' : Sys} {t : Nat} (h : Inv qs s) (hs : s
         · exact hq
         · have := (h.holder u).mp hq; rw [hl] at this; cases this; exact absurd rfl hu
       have hm1 : m ≠ .acq := fun e => by subst e; exact hnb (in_acq hqt)
+      have hm3 : m ≠ .reinit := fun e => by subst e; exact hnb (reinit_bad _)
       simp only [hm1, if_false] at hs
       by_cases hm2 : m = .rel
       · subst hm2
@@ -299,7 +386,7 @@ theorem Inv.step {qs : Nat → DQ} {s s' : Sys} {t : Nat} (h : Inv qs s) (hs : s
         · intro _; exact hok
         · intro u e; cases e
         · exact h.noErr
-      · simp only [hm2, if_false] at hs
+      · simp only [hm2, hm3, if_false] at hs
         cases hs
         obtain ⟨hq', hne⟩ := (h.held t hl).step hqt hm1 hm2 hnb
         constructor
@@ -370,6 +457,7 @@ theorem inside_iff : ∀ (p : List Micro) (q : DQ), runQ discStep q p = .out →
     all_goals first
       | (subst hnb; simpa using this)
       | (split at this <;> simp_all)
+    all_goals (split <;> simp)
 
 theorem dictView_eq_of_nodup : ∀ (l : List Node), (keys l).Nodup → dictView l = l := by
   intro l
@@ -424,14 +512,15 @@ theorem cnt_addIds (c g g' : Nat) : ∀ (k lo : Nat) (l : List Node),
     · simp [e, cnt]; omega
     · simp [e, cnt]
 
-theorem effect_cnt (m : Micro) (reg : Nat) (sh : Shared) (g : Nat) (hd : isDelete m = false) :
-    cnt g (effect m reg sh).1.nodes = addsOf g [m] + cnt g sh.nodes := by
-  cases m <;> simp [effect, addsOf, isDelete] at hd ⊢
+theorem effect_cnt (m : Micro) (reg tmp : Nat) (sh : Shared) (g : Nat) (hd : isDelete m = false) :
+    cnt g (effectT m reg tmp sh).1.nodes = addsOf g [m] + cnt g sh.nodes := by
+  cases m <;> simp [effectT, effect, addsOf, isDelete] at hd ⊢
   · exact cnt_addIds ..
   · exact cnt_addIds ..
   · split
     · rename_i h; simp [h.2, cnt]
     · rfl
+  · exact cnt_addIds ..
 
 /-- conservation: nodes present + nodes still to be inserted by the remaining programs -/
 structure Acct (g n T : Nat) (s : Sys) : Prop where
@@ -460,37 +549,37 @@ theorem Acct.step {g n T : Nat} {s s' : Sys} {t : Nat} (h : Acct g n T s) (hs : 
       have := h.small t (by omega); rw [hp] at this; cases this
     have hnd : isDelete m = false := h.nodel t m (by rw [hp]; simp)
     have hrest : ∀ x ∈ rest, isDelete x = false := fun x hx => h.nodel t x (by rw [hp]; simp [hx])
-    have small' : ∀ (r : Nat) (u : Nat), n ≤ u → ((upd s.thr t ⟨rest, r⟩) u).prog = [] := by
-      intro r u hu
+    have small' : ∀ (r r' : Nat) (u : Nat), n ≤ u → ((upd s.thr t ⟨rest, r, r'⟩) u).prog = [] := by
+      intro r r' u hu
       have : u ≠ t := by omega
       simp [this]; exact h.small u hu
-    have nodel' : ∀ (r : Nat) (u : Nat), ∀ x ∈ ((upd s.thr t ⟨rest, r⟩) u).prog, isDelete x = false := by
-      intro r u x hx
+    have nodel' : ∀ (r r' : Nat) (u : Nat), ∀ x ∈ ((upd s.thr t ⟨rest, r, r'⟩) u).prog, isDelete x = false := by
+      intro r r' u x hx
       by_cases e : u = t
       · subst e; simp at hx; exact hrest x hx
       · simp [e] at hx; exact h.nodel u x hx
-    have htot : ∀ r : Nat, total g (upd s.thr t ⟨rest, r⟩) n + addsOf g [m] = total g s.thr n := by
-      intro r
-      have := total_upd g s.thr n t ⟨rest, r⟩ ht
+    have htot : ∀ r r' : Nat, total g (upd s.thr t ⟨rest, r, r'⟩) n + addsOf g [m] = total g s.thr n := by
+      intro r r'
+      have := total_upd g s.thr n t ⟨rest, r, r'⟩ ht
       rw [hp, addsOf_cons] at this
       simp only at this
       omega
-    have hlockops : ∀ r : Nat, m = .acq ∨ m = .rel → total g (upd s.thr t ⟨rest, r⟩) n = total g s.thr n := by
-      intro r hm
-      have := htot r
+    have hlockops : ∀ r r' : Nat, m = .acq ∨ m = .rel → total g (upd s.thr t ⟨rest, r, r'⟩) n = total g s.thr n := by
+      intro r r' hm
+      have := htot r r'
       rcases hm with e | e <;> subst e <;> simpa [addsOf] using this
     split at hs
     · split at hs
-      · cases hs; exact ⟨by simp only; rw [hlockops _ (Or.inl ‹_›)]; exact h.sum, small' _, nodel' _⟩
+      · cases hs; exact ⟨by simp only; rw [hlockops _ _ (Or.inl ‹_›)]; exact h.sum, small' _ _, nodel' _ _⟩
       · cases hs
     · split at hs
       · split at hs <;> cases hs <;>
-          exact ⟨by simp only; rw [hlockops _ (Or.inr ‹_›)]; exact h.sum, small' _, nodel' _⟩
+          exact ⟨by simp only; rw [hlockops _ _ (Or.inr ‹_›)]; exact h.sum, small' _ _, nodel' _ _⟩
       · cases hs
-        refine ⟨?_, small' _, nodel' _⟩
+        refine ⟨?_, small' _ _, nodel' _ _⟩
         simp only
-        rw [effect_cnt m _ _ g hnd]
-        have := htot (effect m (s.thr t).reg s.sh).2
+        rw [effect_cnt m _ _ _ g hnd]
+        have := htot (effectT m (s.thr t).reg (s.thr t).tmp s.sh).2.1 (effectT m (s.thr t).reg (s.thr t).tmp s.sh).2.2
         have := h.sum
         omega
 
@@ -517,8 +606,9 @@ theorem total_finished {g : Nat} {thr : Nat → Thread} (h : ∀ t, (thr t).prog
 theorem ctor_true_bad (q : DQ) : discStep q (.ctor true) = .bad := by
   cases q <;> simp [discStep]
 
-theorem effect_gen (m : Micro) (r : Nat) (sh : Shared) (h : m ≠ .ctor true) : (effect m r sh).1.gen = sh.gen := by
-  cases m <;> simp [effect]
+theorem effect_gen (m : Micro) (r t : Nat) (sh : Shared) (h : m ≠ .ctor true) (h' : m ≠ .reinit) :
+    (effectT m r t sh).1.gen = sh.gen := by
+  cases m <;> simp [effectT, effect] at h' ⊢
   case ctor w => cases w <;> simp at h ⊢
 
 /-- a step of a thread whose remaining program is accepted never replaces the store -/
@@ -532,13 +622,14 @@ theorem Inv.step_gen {qs : Nat → DQ} {s s' : Sys} {t : Nat} (h : Inv qs s) (hs
     rw [hp, runQ_cons] at hacc
     have hnb := acc_ne_bad hacc
     have hm : m ≠ .ctor true := fun e => by subst e; exact hnb (ctor_true_bad _)
+    have hm' : m ≠ .reinit := fun e => by subst e; exact hnb (reinit_bad _)
     split at hs
     · split at hs
       · cases hs; rfl
       · cases hs
     · split at hs
       · split at hs <;> cases hs <;> rfl
-      · cases hs; exact effect_gen m _ _ hm
+      · cases hs; exact effect_gen m _ _ _ hm hm'
 
 theorem Inv.run_gen (sched : List Nat) : ∀ {qs : Nat → DQ} {s : Sys}, Inv qs s → (Sched.run sched s).sh.gen = s.sh.gen := by
   induction sched with
